@@ -166,3 +166,28 @@ func TestVariant(t *testing.T) {
 		t.Fatalf("%q %v", v, err)
 	}
 }
+
+func TestResultRoundTrip(t *testing.T) {
+	lines := []string{
+		"res 7 ret l 4 b x616262 b x61 l 3 i 1 i 1 i 0 i 1 0 3 1 4 9 3 1 4 1 x5b625d 1 x6e i 1 1 x67 i 1 0 2 ev 2 0 0 0 0 x 0 0 0 ev 1 1 1 1 0 x616262 1 b x61 1 x6e i 1 1 x67 i 1",
+		"res 8 ret nil 1 x313a31 0 1 1 4 0 1 1 1 x226122 0 0 2 x5320313a33 x31 4 x5320313a33 x6e6f 1 0",
+		"res 9 panic i -3 2 x61 x61 0 1 1 4 0 1 1 0 0 0 0 0",
+		"res 10 panic e x626f6f6d 0 0 1 1 4 0 1 1 0 0 0 0 0",
+		"res 11 timeout",
+		"res 12 badvariant",
+		"res 13 oof",
+		"res 14 crash x66617461",
+	}
+	for _, l := range lines {
+		r, err := ParseResult(l)
+		if err != nil {
+			t.Fatalf("%q: %v", l, err)
+		}
+		if got := r.String(); got != l {
+			t.Fatalf("round trip:\n%s\n%s", l, got)
+		}
+	}
+	if _, err := ParseResult("res 1 ret nil 0 0 1 1 4 0 1 1 0 0 0 0"); err == nil {
+		t.Fatal("short line accepted")
+	}
+}
